@@ -131,7 +131,7 @@ func (c cacheNode) SetWithExpireCtx(ctx context.Context, key string, val any,
 		return err
 	}
 
-	return c.rds.SetexCtx(ctx, key, string(data), int(math.Ceil(expire.Seconds())))
+	return c.rds.SetexCtx(ctx, key, string(data), expireSeconds(expire))
 }
 
 // String returns a string that represents the cacheNode.
@@ -276,7 +276,17 @@ func (c cacheNode) processCache(ctx context.Context, key, data string, v any) er
 }
 
 func (c cacheNode) setCacheWithNotFound(ctx context.Context, key string) error {
-	seconds := int(math.Ceil(c.aroundDuration(c.notFoundExpiry).Seconds()))
+	seconds := expireSeconds(c.aroundDuration(c.notFoundExpiry))
 	_, err := c.rds.SetnxExCtx(ctx, key, notFoundPlaceholder, seconds)
 	return err
+}
+
+// expireSeconds rounds the expiry up to seconds, at least one second,
+// because redis SET without a positive expiry makes the key persistent.
+func expireSeconds(expire time.Duration) int {
+	if seconds := int(math.Ceil(expire.Seconds())); seconds > 0 {
+		return seconds
+	}
+
+	return 1
 }
